@@ -14,7 +14,7 @@ from ..pyfront import (find_def, find_all, match, walk_local, dotted, same,
 from ..flowq import (iter_polarity, resolve_local, pred_of, witness_path,
                      nodes_with, any_pred, path_text)
 from ..cfg import cfg_of, header_expr
-from ..affine import Aff, Slice, Elem, Unknown, Zip, AffEval
+from ..affine import Aff, Slice, Elem, Unknown, Zip, AffEval, provably_nonneg
 from . import shared
 
 A, K, M, D = (Aff.sym(x) for x in 'AKMD')
@@ -44,6 +44,12 @@ def leaf(n, env, ev):
                 return D
             if nm == 'co_argcount':
                 return A
+        if n.func.id == 'min' and len(n.args) == 2 and not n.keywords:
+            vs = [ev.ev(x, env) for x in n.args]
+            if M in vs and A in vs:
+                # the effective level: never more names than positionals
+                env['__M_le_A__'] = True
+                return M
         if n.func.id == 'len' and len(n.args) == 1:
             v = ev.ev(n.args[0], env)
             if isinstance(v, Slice) and v.base == 'defaults' and v.hi is None:
@@ -109,6 +115,7 @@ def eval_path(path, func):
         if isinstance(v, tuple) and v and v[0] == 'alias':
             v = env.get(v[1], Unknown('alias ' + v[1]))
         out[attr] = v
+    conds['__rel__'] = list(ev.rel)
     return out, conds, env
 
 
@@ -153,6 +160,7 @@ def run(rep):
         rep.stat('paths_enumerated', len(paths))
         fields = ('positional', 'required', 'optional', 'varargs', 'kwargs')
         verdicts = {k: [] for k in fields}
+        negidx = []
         npaths = 0
         for path in paths:
             if path[-1][0] is not cfg.exit:
@@ -166,6 +174,19 @@ def run(rep):
             if neg is not None and isinstance(neg[0], Aff) and neg[0] != (A - M - D):
                 verdicts['required'].append(
                     ('clamp test on %r (required: A - M - D)' % (neg[0],), path))
+            # every index / slice bound must be non-negative for all admissible
+            # inputs: a negative one is legal Python and silently counts from
+            # the end (names[-1] is the **kw name)
+            cons = [A, K, D, M]
+            if env.get('__M_le_A__'):
+                cons.append(A - M)
+            if neg is not None and isinstance(neg[0], Aff):
+                cons.append((Aff.const(0) - neg[0] - Aff.const(1)) if neg[1] else neg[0])
+            for kind, form, src in conds.get('__rel__', []):
+                if not provably_nonneg(form, cons):
+                    negidx.append(('%s `%s` = %r can be negative (e.g. imlevel=1 for a '
+                                   'method whose self is taken by *args: A=0, M=1)'
+                                   % (kind, src, form), path))
             want = {
                 'positional': Slice('varnames', M, A),
                 'required': Slice('varnames', M, M) if clamped
@@ -203,6 +224,12 @@ def run(rep):
                           'path': path_text(bad[0][1])[:40]}
             rep.check('R18.1', 'interface.fromFunction', not bad, detail,
                       construct=k, node=f)
+        rep.check('R18.1', 'interface.fromFunction', not negidx,
+                  'every index and slice bound into co_varnames is non-negative for '
+                  'all code objects and levels' if not negidx else
+                  {'paths_violating': len(negidx), 'first': negidx[0][0],
+                   'path': path_text(negidx[0][1])[:30]},
+                  construct='non-negative-index', node=f)
         # names derived from the described function itself
         nm = resolve_local(f, ast.Name(id='code', ctx=ast.Load()))
         rep.check('R18.1', 'interface.fromFunction',
@@ -225,6 +252,7 @@ def run(rep):
 
     # ---- R18.2 field consistency ------------------------------------------------
     from . import methodsem
+    methodsem.abc_method(rep, repo, 'R18.2')
     methodsem.field_rewrites(rep, repo, 'R18.2', 'fromFunction')
 
     # ---- R18.3 rendering --------------------------------------------------------
